@@ -12,10 +12,11 @@ import NrfModel.Drv.Structs
 import NrfModel.Drv.Spec0809
 import NrfModel.Drv.Cfg
 import NrfModel.Drv.SpecK
+import NrfModel.Drv.SpiDev
 
 open Nrf.Drv
 
-def allHandlers : List (String × Handler) := netHandlers ++ rfHandlers ++ netSHandlers ++ meshHandlers ++ bleHandlers ++ structsHandlers ++ spec0809Handlers ++ cfgHandlers ++ specKHandlers
+def allHandlers : List (String × Handler) := netHandlers ++ rfHandlers ++ netSHandlers ++ meshHandlers ++ bleHandlers ++ structsHandlers ++ spec0809Handlers ++ cfgHandlers ++ specKHandlers ++ spidevHandlers
 
 def dispatch (line : String) : String :=
   match (line.splitOn " ").filter (· ≠ "") with
